@@ -6,7 +6,8 @@ Lean model (Gen/FnIntegrated.lean) under the numpy, math and sympy backends; dim
 Oracle (real code only, independent of the Lean model): the sympy-backend expression is differentiated with
 sympy.diff and the residual of the documented rate equation is evaluated with 100 digits (mpmath via lambdify) at the (exact rational value
 of the) generated point; the value at t = 0 must be the stated initial concentration; the three backends must all be
-callable and agree.
+callable and agree; every calling convention of the documented signature (optional arguments by position, by keyword, omitted)
+must denote the same call.
 """
 import math, struct
 from fractions import Fraction
@@ -27,6 +28,24 @@ FUNCS = {
     'binary_rev': (['kf', 'kb', 'prod', 'major', 'minor'], 1),
     'unary_irrev_cstr': (['k', 'r', 'p', 'fr', 'fp', 'fv'], 2),
     'binary_irrev_cstr': (['k', 'r', 'p', 'fr', 'fp', 'fv', 'n'], 2),
+}
+
+
+# The DOCUMENTED public signatures (parameter order, names and defaults) -- part of the specification, pinned here and NOT read
+# from the source: a caller may pass every argument by position, by keyword, or leave the optional ones out.
+REQUIRED = object()
+SIGNATURES = {
+    'dimerization_irrev': [('t', REQUIRED), ('kf', REQUIRED), ('initial_C', REQUIRED), ('P0', 1), ('t0', 0)],
+    'pseudo_irrev': [('t', REQUIRED), ('kf', REQUIRED), ('prod', REQUIRED), ('major', REQUIRED), ('minor', REQUIRED), ('backend', None)],
+    'pseudo_rev': [('t', REQUIRED), ('kf', REQUIRED), ('kb', REQUIRED), ('prod', REQUIRED), ('major', REQUIRED), ('minor', REQUIRED),
+                   ('backend', None)],
+    'binary_irrev': [('t', REQUIRED), ('kf', REQUIRED), ('prod', REQUIRED), ('major', REQUIRED), ('minor', REQUIRED), ('backend', None)],
+    'binary_rev': [('t', REQUIRED), ('kf', REQUIRED), ('kb', REQUIRED), ('prod', REQUIRED), ('major', REQUIRED), ('minor', REQUIRED),
+                   ('backend', None)],
+    'unary_irrev_cstr': [('t', REQUIRED), ('k', REQUIRED), ('r', REQUIRED), ('p', REQUIRED), ('fr', REQUIRED), ('fp', REQUIRED),
+                         ('fv', REQUIRED), ('backend', None)],
+    'binary_irrev_cstr': [('t', REQUIRED), ('k', REQUIRED), ('r', REQUIRED), ('p', REQUIRED), ('fr', REQUIRED), ('fp', REQUIRED),
+                          ('fv', REQUIRED), ('n', 1), ('backend', None)],
 }
 
 
@@ -132,11 +151,11 @@ class C17(Property):
             a = {}
             if fn == 'dimerization_irrev':
                 t0 = 0.0 if rng.random() < 0.5 else lu(0.01, 2)
-                a = {'kf': lu(0.05, 20), 'initial_C': lu(0.01, 10), 't0': t0}
+                a = {'kf': lu(0.05, 20), 'initial_C': lu(0.01, 10), 't0': t0, 'P0': lu(0.1, 5)}    # P0: documented, unused
                 t = t0 + t
                 if rng.random() < 0.3:
                     # exact variant, driven with Fractions
-                    q = {k: Fraction(rng.randint(1, 400), rng.randint(1, 60)) for k in a}
+                    q = {k: Fraction(rng.randint(1, 400), rng.randint(1, 60)) for k in a if k != 'P0'}
                     q['t0'] = Fraction(rng.randint(0, 50), rng.randint(1, 20))
                     tq = q['t0'] + Fraction(rng.randint(0, 300), rng.randint(1, 40))
                     cases.append({'fn': fn, 'exact': True, 'backend': 'fractions', 't': rat_json(tq),
@@ -311,6 +330,10 @@ class C17(Property):
             for x, y in zip(vals['numpy'], vals[be]):
                 if not close(x, y, 1e-9, 1e-9 * scale):
                     return '%s(t=%r, %r): backend numpy gives %r, backend %s gives %r' % (fn, t, a, vals['numpy'], be, vals[be])
+        # (1a) calling conventions: optional arguments by position / by keyword / omitted, in the DOCUMENTED order
+        f = self._conventions(fn, c, t, a, scale)
+        if f is not None:
+            return f
         # (1b) the defaults of the signature: n=1 (binary_irrev_cstr), t0=0 (dimerization_irrev) mean what the theorems pass explicitly
         from chempy.kinetics import integrated as I
         import numpy as np
@@ -349,6 +372,66 @@ class C17(Property):
                 if not (abs(dy[i] - tot) <= mpmath.mpf('1e-30') * mag + mpmath.mpf('1e-80')):
                     return ('%s(t=%r, %r): component %d has d/dt = %s but the rate equation gives %s'
                             % (fn, t, a, i, mpmath.nstr(dy[i], 15), mpmath.nstr(tot, 15)))
+        return None
+
+    def _conventions(self, fn, c, t, a, scale):
+        """every way of passing the arguments that the documented signature allows must mean the same call.
+        Reference: ALL arguments by keyword with the documented names.  Compared with: all arguments by position in the
+        documented order; required by position + optional by keyword; and, for every k, the first k optional arguments by
+        position with the rest omitted (expected: the keyword call with the DOCUMENTED defaults for the omitted ones)."""
+        from chempy.kinetics import integrated as I
+        import numpy as np
+        func = getattr(I, fn)
+        sig = SIGNATURES[fn]
+        given = dict(a)
+        given['t'] = t
+        if 'backend' in dict(sig):
+            given['backend'] = c['backend'] if c.get('backend') in ('numpy', 'math') else None
+        if fn == 'dimerization_irrev':
+            given.setdefault('P0', 1.0)
+        req = [n_ for n_, d in sig if d is REQUIRED]
+        opt = [(n_, d) for n_, d in sig if d is not REQUIRED]
+        nres = FUNCS[fn][1]
+
+        def run(args, kwargs):
+            with np.errstate(all='ignore'):
+                r = func(*args, **kwargs)
+            r = list(r) if nres > 1 else [r]
+            return [float(x) for x in r]
+
+        def show(args, kwargs):
+            return '%s(%s)' % (fn, ', '.join([repr(x) for x in args] + ['%s=%r' % kv for kv in kwargs.items()]))
+
+        def same(x, y):
+            return len(x) == len(y) and all(close(u, v, 1e-12, 1e-12 * scale) for u, v in zip(x, y))
+        forms = []      # (args, kwargs, expected-kwargs)
+        allkw = {n_: given[n_] for n_, _ in sig}
+        forms.append(([given[n_] for n_, _ in sig], {}, allkw))
+        forms.append(([given[n_] for n_ in req], {n_: given[n_] for n_, _ in opt}, allkw))
+        for k in range(len(opt) + 1):
+            exp = {n_: given[n_] for n_ in req}
+            exp.update({n_: given[n_] for n_, _ in opt[:k]})
+            exp.update({n_: d for n_, d in opt[k:]})          # documented defaults
+            forms.append(([given[n_] for n_ in req] + [given[n_] for n_, _ in opt[:k]], {}, exp))
+        for args, kwargs, exp in forms:
+            try:
+                want = run([], exp)
+            except ValueError as e:
+                if 'math domain error' in str(e):
+                    continue
+                return '%s raised %s: %s' % (show([], exp), exc_name(e), str(e)[:80])
+            except Exception as e:
+                return '%s raised %s: %s' % (show([], exp), exc_name(e), str(e)[:80])
+            try:
+                got = run(args, kwargs)
+            except Exception as e:
+                return '%s raised %s: %s (the keyword form returns %r)' % (show(args, kwargs), exc_name(e), str(e)[:80], want)
+            if any(math.isnan(x) for x in want) and any(math.isnan(x) for x in got):
+                continue
+            if not same(got, want):
+                return ('%s = %r differs from %s = %r: the documented signature is %s(%s)'
+                        % (show(args, kwargs), got, show([], exp), want, fn,
+                           ', '.join(n_ if d is REQUIRED else '%s=%r' % (n_, d) for n_, d in sig)))
         return None
 
     def _oracle_exact(self, c):
